@@ -34,6 +34,7 @@ import (
 	"github.com/lestrrat-go/jwx/v2/jwt"
 	"github.com/nuts-foundation/nuts-node/audit"
 	"github.com/nuts-foundation/nuts-node/core"
+	"github.com/nuts-foundation/nuts-node/crypto/jwx"
 	"github.com/nuts-foundation/nuts-node/http/log"
 	"github.com/sirupsen/logrus"
 )
@@ -147,6 +148,12 @@ func (m middlewareImpl) checkConnectionAuthorization(context echo.Context, next 
 			continue
 		}
 
+		// The JWX library infers the candidate algorithms from the key family only (e.g. any ES* for any EC key),
+		// so make sure the algorithm in the header is actually defined for this key (e.g. ES256 requires a P-256 key).
+		if err := signatureAlgorithmFitsKey(credential, authorizedKey); err != nil {
+			return unauthorizedError(context, fmt.Errorf("insecure credential: %w", err))
+		}
+
 		// The JWT was indeed signed by this authorized key, but that is not enough to authorize the request.
 		// Attempt to validate the parameters of the JWT, which ensures the audience, issued at, expiration, etc.
 		// are valid.
@@ -206,6 +213,12 @@ func credentialIsSecure(credential string) error {
 		return fmt.Errorf("cannot parse credential: jws.ParseString: %w", err)
 	}
 
+	// Only credentials carrying exactly one signature are acceptable. The JWS JSON serialization allows multiple
+	// signatures, of which the JWX library would only require a single one to be valid.
+	if len(message.Signatures()) != 1 {
+		return fmt.Errorf("credential must contain exactly 1 signature, found %d", len(message.Signatures()))
+	}
+
 	// Inspect the signatures in the message
 	secureSignatureCount := 0
 	for _, signature := range message.Signatures() {
@@ -246,6 +259,22 @@ func credentialIsSecure(credential string) error {
 
 	// By default this method rejects messages
 	return fmt.Errorf("no signatures found")
+}
+
+// signatureAlgorithmFitsKey returns nil if the signature algorithm of the (single-signature) credential is defined for the authorized key.
+func signatureAlgorithmFitsKey(credential string, key authorizedKey) error {
+	message, err := jws.ParseString(credential)
+	if err != nil {
+		return err
+	}
+	if len(message.Signatures()) != 1 {
+		return fmt.Errorf("credential must contain exactly 1 signature, found %d", len(message.Signatures()))
+	}
+	publicKey, err := cryptoPublicKey(key.key)
+	if err != nil {
+		return err
+	}
+	return jwx.ValidateAlgorithmForKey(message.Signatures()[0].ProtectedHeaders().Algorithm(), publicKey)
 }
 
 // mandatoryJWTFields returns the mandatory fields of the JWT, and is effectively a constant
